@@ -19,7 +19,7 @@ func (Engine) Name() string { return "syncsim" }
 func (Engine) Scenarios(property string) []string {
 	switch property {
 	case "C01":
-		return []string{"model", "disk", "disk-remote", "model-outcomes"}
+		return []string{"model", "disk", "disk-remote", "model-outcomes", "disk-crash"}
 	case "C02":
 		return []string{"model", "disk", "readonly"}
 	case "C03":
@@ -27,7 +27,7 @@ func (Engine) Scenarios(property string) []string {
 	case "C04":
 		return []string{"model", "disk", "disk-remote", "model-outcomes"}
 	case "C05":
-		return []string{"model-outcomes", "model-outcomes-enum"}
+		return []string{"model-outcomes", "model-outcomes-enum", "model-crash"}
 	case "C06":
 		return []string{"model", "model-untracked"}
 	case "C08":
@@ -47,9 +47,11 @@ func (Engine) Scenarios(property string) []string {
 	case "C09":
 		return append(componentScenarios(property), "disk", "disk-remote", "disk-fulldev")
 	case "C10":
-		return append(componentScenarios(property), "disk-fulldev")
+		return append(componentScenarios(property), "disk-fulldev", "disk-crash")
 	case "C12":
 		return append(componentScenarios(property), "disk", "disk-edits")
+	case "C27":
+		return append(componentScenarios(property), "model-crash", "disk-crash")
 	}
 	return componentScenarios(property)
 }
@@ -58,7 +60,7 @@ func (Engine) Generate(property, scenario string, seed uint64, tier string) *sim
 	p := &simkit.Plan{Engine: "syncsim", Scenario: scenario, Property: property, Seed: seed, Cfg: map[string]int64{}}
 	r := simkit.NewRand(seed, 1)
 	switch scenario {
-	case "model", "model-untracked", "model-outcomes", "model-outcomes-enum", "model-halt", "model-exec", "lifecycle", "disk", "disk-untracked", "disk-halt", "disk-escape", "disk-lifecycle", "disk-edits", "disk-remote", "disk-fulldev", "disk-exec":
+	case "model", "model-untracked", "model-outcomes", "model-outcomes-enum", "model-halt", "model-exec", "lifecycle", "disk", "disk-untracked", "disk-halt", "disk-escape", "disk-lifecycle", "disk-edits", "disk-remote", "disk-fulldev", "disk-exec", "disk-crash", "model-crash":
 		genModel(p, r, tier)
 	case "links-scan", "links-mixed":
 		genLinks(p, r, tier)
@@ -72,7 +74,7 @@ func (Engine) Execute(t *testing.T, plan *simkit.Plan) *simkit.Result {
 	switch plan.Scenario {
 	case "model-outcomes-enum":
 		return execOutcomeEnumeration(t, plan)
-	case "model", "model-untracked", "model-outcomes", "model-halt", "model-exec", "lifecycle", "disk", "disk-untracked", "disk-halt", "disk-escape", "disk-lifecycle", "disk-edits", "disk-remote", "disk-fulldev", "disk-exec", "links-scan", "links-mixed":
+	case "model", "model-untracked", "model-outcomes", "model-halt", "model-exec", "lifecycle", "disk", "disk-untracked", "disk-halt", "disk-escape", "disk-lifecycle", "disk-edits", "disk-remote", "disk-fulldev", "disk-exec", "disk-crash", "model-crash", "links-scan", "links-mixed":
 		return execSession(t, plan)
 	}
 	if r := execComponent(t, plan); r != nil {
